@@ -128,3 +128,22 @@ V("c06-weight-formula", "C06", "violation", "C06.R4", edits=[(UK, "weight = 1 / 
 V("c06-cvr-weight-correction", "C06", "violation", "C06.R4", edits=[(UK, "self.cvr_weight[0, 0] += 1 - alpha**2.0 + beta", "self.cvr_weight[0, 0] += 1 - alpha**2.0 - beta")])
 V("c06-n-recompute-residuals-always", "C06", "pass", edits=[(UK, "        if self._resample:\n            self.sigma_points = self.generateSigmaPoints(self.pred_x, self.pred_p)\n            # The re-sampled points", "        if self._resample:\n            self.sigma_points = self.generateSigmaPoints(self.pred_x, self.pred_p)\n            # the re-sampled points"), (UK, "            self.sigma_x_res = self.sigma_points - self.sigma_points[:, :1]\n\n        # STEP 1", "        self.sigma_x_res = self.sigma_points - self.sigma_points[:, :1]\n\n        # STEP 1")])
 V("c06-n-commuted-sum", "C06", "pass", edits=[(UK, "self.est_x = self.pred_x + self.kalman_gain.dot(self.innovation)", "self.est_x = self.kalman_gain.dot(self.innovation) + self.pred_x")])
+
+# ------------------------------------------------------------------------------------ C14
+FV = "sensors/field_of_view.py"
+SB = "sensors/sensor_base.py"
+SU = "physics/sensor_utils.py"
+V("c14-revert-F7-raw-azimuth", "C14", "violation", "C14.R1", revert="2994fe8")
+V("c14-az-mask-and-for-or", "C14", "violation", "C14.R2", edits=[(SB, "            azimuth >= self.az_mask[0] or azimuth <= self.az_mask[1]\n", "            azimuth >= self.az_mask[0] and azimuth <= self.az_mask[1]\n")])
+V("c14-az-mask-wrap-branch-dropped", "C14", "violation", "C14.R2", edits=[(SB, "        if self.az_mask[0] > self.az_mask[1] and (\n", "        if self.az_mask[0] > self.az_mask[1] and azimuth < 0 and (\n")])
+V("c14-az-mask-strict", "C14", "violation", "C14.R2", edits=[(SB, "self.az_mask[0] <= azimuth <= self.az_mask[1]", "self.az_mask[0] < azimuth <= self.az_mask[1]")])
+V("c14-el-mask-flipped", "C14", "violation", "C14.R2", edits=[(SB, "if elevation < self.el_mask[0] or elevation > self.el_mask[1]:", "if elevation < self.el_mask[0] and elevation > self.el_mask[1]:")])
+V("c14-los-comparator", "C14", "violation", "C14.R3", edits=[(SU, "return (1 - tau) * r1sq + r1_dot_r2 * tau >= Earth.radius**2", "return (1 - tau) * r1sq + r1_dot_r2 * tau <= Earth.radius**2")])
+V("c14-los-tau-asymmetric", "C14", "violation", "C14.R3", edits=[(SU, "tau = (r1sq - r1_dot_r2) / (r1sq + r2sq - 2 * r1_dot_r2)", "tau = (r1sq - r1_dot_r2) / (r1sq + r2sq - r1_dot_r2)")])
+V("c14-limb-polarity", "C14", "violation", "C14.R3", edits=[(SU, "    return limb_elevation > target_elevation", "    return limb_elevation < target_elevation")])
+V("c14-ground-lighting-buffer-sign", "C14", "violation", "C14.R3", edits=[(SU, "return satellite_sun_angle >= PI / 2 + buffer_angle", "return satellite_sun_angle >= PI / 2 - buffer_angle")])
+V("c14-conic-full-angle", "C14", "violation", "C14.R4", edits=[(FV, "        return angle <= self.cone_angle / 2", "        return angle <= self.cone_angle")])
+V("c14-rect-widths-swapped", "C14", "violation", "C14.R4", edits=[(FV, "azimuth_angle <= self.azimuth_angle / 2 and elevation_angle <= self.elevation_angle / 2", "azimuth_angle <= self.elevation_angle / 2 and elevation_angle <= self.azimuth_angle / 2")])
+V("c14-n-az-mask-demorgan", "C14", "pass", edits=[(SB, "        if self.az_mask[0] > self.az_mask[1] and (\n            azimuth >= self.az_mask[0] or azimuth <= self.az_mask[1]\n        ):", "        if self.az_mask[0] > self.az_mask[1] and not (\n            azimuth < self.az_mask[0] and azimuth > self.az_mask[1]\n        ):")])
+V("c14-n-az-branches-reordered", "C14", "pass", edits=[(SB, "        if self.az_mask[0] <= self.az_mask[1] and self.az_mask[0] <= azimuth <= self.az_mask[1]:\n            return True, Explanation.VISIBLE\n\n", ""), (SB, "        # Default: target satellite is not in view\n", "        if self.az_mask[0] <= self.az_mask[1] and self.az_mask[0] <= azimuth <= self.az_mask[1]:\n            return True, Explanation.VISIBLE\n\n        # Default: target satellite is not in view\n")])
+V("c14-n-el-mask-positive-form", "C14", "pass", edits=[(SB, "if elevation < self.el_mask[0] or elevation > self.el_mask[1]:", "if not (self.el_mask[0] <= elevation <= self.el_mask[1]):")])
